@@ -28,6 +28,14 @@ Proof. exact copy_eof. Qed.
 Print Assumptions C05_eof.
 Print Assumptions C05_progress.
 
+(* bytes never wait for more bytes: with nothing further sent, copy rounds alone - one per unread byte is always
+   enough, whatever the read sizes - deliver everything unread, so a request/response exchange (the next chunk is
+   sent only after the previous one has arrived) cannot stall *)
+Theorem C05_no_waiting : forall B ks d, 1 <= B -> eof_delivered d = false -> lenN (unread d) <= N.of_nat (length ks) ->
+  unread (copy_rounds B d ks) = [] /\ delivered (copy_rounds B d ks) = delivered d ++ unread d.
+Proof. exact copy_drains. Qed.
+Print Assumptions C05_no_waiting.
+
 (* the copy buffer of the processor (regenerated from proc/tcp/proc.go) can hold at least one byte, so C05_progress applies *)
 Theorem C05_buffer : 1 <= tcp_buf_size.
 Proof. exact tcp_buf_ok. Qed.
